@@ -274,11 +274,12 @@ func (l *Arm) UnmarshalJSON(b []byte) error {
 }
 
 type Disp struct {
-	I, M   int
-	Form   string
-	Target int
-	Recv   string
-	A, B   int
+	I, M    int
+	Form    string
+	Target  int
+	Recv    string
+	A, B, C int   // results of the two calls, counter of the target object afterwards
+	Path    []int // embedded fields (type indices) from T_I to the target object
 }
 
 func (l *Disp) UnmarshalJSON(b []byte) error {
@@ -286,7 +287,7 @@ func (l *Disp) UnmarshalJSON(b []byte) error {
 	if err := json.Unmarshal(b, &a); err != nil {
 		return err
 	}
-	if len(a) != 7 {
+	if len(a) != 9 {
 		return fmt.Errorf("disp: %s", b)
 	}
 	n := func(x any) int { f, _ := x.(float64); return int(f) }
@@ -294,7 +295,13 @@ func (l *Disp) UnmarshalJSON(b []byte) error {
 	l.Form, _ = a[2].(string)
 	l.Target = n(a[3])
 	l.Recv, _ = a[4].(string)
-	l.A, l.B = n(a[5]), n(a[6])
+	l.A, l.B, l.C = n(a[5]), n(a[6]), n(a[7])
+	l.Path = []int{}
+	if pa, ok := a[8].([]any); ok {
+		for _, x := range pa {
+			l.Path = append(l.Path, n(x))
+		}
+	}
 	return nil
 }
 
